@@ -19,6 +19,7 @@ TStep == /\ l <= Len(Trace)
          /\ store' = StoreOf(Trace[l])
          /\ res' = View(ResolveRef(store'))
          /\ res' = ViewOf(Trace[l])          \* the real result must be the specification's
+         /\ AnchorOriginOf(ResolveRef(store')) = Trace[l].view.ao
          /\ l' = l + 1
 TNext == TStep
 
